@@ -221,8 +221,28 @@ def shard(sh: Shard, seed, wseed, regime, nhist, nev):
                     # a client whose event handler really suspends (for up to five polling intervals)
                     rig.event_delay = lambda ev: r.choice([None, 0, 0.25, 0.5])
                     sh.count("histories_with_suspending_client_handler")
+                switcher = None
+                if hi % 4 == 2:
+                    # the timing profile is switched now and then during the history (every pump or
+                    # blower change does): every configuration-aware sleeper of the process wakes early
+                    from geckolib.config import set_config_mode
+
+                    async def switch_loop():
+                        on = False
+                        while True:
+                            await asyncio.sleep(r.choice([0.03, 0.07, 0.13, 0.4]))
+                            on = not on
+                            try:
+                                set_config_mode(on)
+                            except (AssertionError, AttributeError):
+                                pass
+
+                    switcher = asyncio.ensure_future(switch_loop())
+                    sh.count("histories_with_profile_switches")
                 e0, d0, ev0 = len(rig.protocol.queue.events), len(w.net.dgrams), len(rig.events)
                 exp_acks, exp_rferr = await history(sh, rig, r, regime, nev)
+                if switcher is not None:
+                    switcher.cancel()
                 n = judge_queue(sh, rig, regime, e0, f"{seed}:{wseed}:{hi}")
                 acks = [d for d in w.net.dgrams[d0:] if d.dir == "c2s" and d.verb == "STATQ"]
                 rf = [e for e in rig.events[ev0:] if e[0] == GeckoSpaEvent.ERROR_RF_ERROR]
@@ -352,6 +372,7 @@ def main(tier, seed):
     for v in ("ip", "port", "src-id", "dst-id", "both-ids-swapped"):
         run.need(f"misaddressed:{v}" in kinds, f"mis-addressed variant {v} not exercised")
     run.need(run.counters.get("unhandled_discards", 0) > 50 and run.counters.get("claimed_pops", 0) > 200, "too few pops observed")
+    run.need(run.counters.get("histories_with_profile_switches", 0) > 10, "no history with timing-profile switches")
     run.need(run.counters.get("two_connection_rounds", 0) > 50, "two connections in one process hardly exercised")
     run.need(run.counters.get("histories_with_suspending_client_handler", 0) > 5, "no history with a suspending client handler")
     return run.finish(
